@@ -27,3 +27,19 @@ claim("C10",
  "Proof that Exclude(min,max) removes exactly the points with min<=t<=max (inclusive at both ends, including min==max and the extreme int64 values), keeps every other point with its value and order, for all typed variants (tsm1 value slices and tsdb/cursors arrays); DeleteRangeWALEntry decoding is panic-free (shared with C13). Permanence across restart/compaction, crash points and concurrent snapshots are NOT decided.",
  "as C02",
  "DESIGN.md 3/C10")
+claim("C03",
+ "Proof for every replication factor, consistency level, per-owner outcome vector and arrival order (the owner goroutines, store, shard writer and hinted handoff are abstracted to arbitrary results): required = 1 | n/2+1 | n; success is reported only if that many owners answered without error and whenever all answers arrived and the level was met; too few successes => ErrPartialWrite, none => a failure that is not ErrPartialWrite; no owners => never success. For the per-owner body: exactly one result is sent on every path, hinted handoff is offered at most once and exactly once when the queue is non-empty or the direct write failed retryably, a refused handoff is an error, and under ANY an accepted handoff counts as success. Real network timing is not modelled.",
+ "Channel receives yield arbitrary non-nil results (assumed message invariant, justified by the body's msg_non_nil postcondition); interface-typed environment of PointsWriter assumed not to write the writer's own fields; goroutine interleavings are not modelled (each arrival order is covered by the arbitrary receive).",
+ "DESIGN.md 3/C03")
+claim("C08",
+ "Proof for all metadata values and timestamps: RetentionPolicyInfo.ShardGroupByTimestamp returns a group iff one designates the timestamp (contains it, not deleted, not truncated at or before it) and the returned pointer is that group; the write path's sgList.ShardGroupAt only ever returns a list element that designates the timestamp; the shard hash is FNV-64a of the series key bytes and nothing else (InlineFNV64a.Write against a fold spec, HashID). Batch partition counting in MapShards and tag-order canonicalisation are claimed only where their obligations are listed in the evidence.",
+ "sort.Search modelled by its unconditional post-condition with the predicate inlined; sort.Sort call is excluded by the precondition !needsSort of the verified path.",
+ "DESIGN.md 3/C08")
+claim("C16",
+ "Proof for every user record and every statement list: UserInfo.AuthorizeDatabase is exactly `admin or no-privilege-needed or grant equals / is ALL`; QueryAuthorizer.AuthorizeQuery returns nil only if (users exist) the user is a *UserInfo that is admin or whose grants cover every privilege of every statement on the statement's database or the default one, with admin-only statements refused. The required privileges of a statement are an uninterpreted function (influxql). Known finding recorded: the no-users bootstrap inspects only the first statement. HTTP middleware and the credential cache are not covered.",
+ "influxql Statement.RequiredPrivileges assumed deterministic; bcrypt/JWT/httpd out of scope.",
+ "DESIGN.md 3/C16")
+claim("C17",
+ "Proof for every policy, group set and time: ExpiredShardGroups returns exactly (sound and complete, via ghost witness positions) the pointers to groups that are not deleted and whose EndTime+Duration is before t, and nothing when Duration==0; DeletedShardGroups returns exactly the deleted groups; both leave the metadata untouched (frame). The retention service loop and liveness ('eventually') are not decided.",
+ "time.Time modelled as an instant (nanos); Add/Before/IsZero trusted.",
+ "DESIGN.md 3/C17")
